@@ -60,6 +60,9 @@ public:
 	randomx_flags getFlags() const {
 		return vmFlags;
 	}
+	bool usesCache(const randomx_cache* cache) const {
+		return cachePtr == cache;
+	}
 	virtual void setFlagV2() { vmFlags |= RANDOMX_FLAG_V2; }
 	virtual void clearFlagV2() {
 		if (vmFlags & RANDOMX_FLAG_V2) {
